@@ -36,7 +36,13 @@ Proved here - the lemmas the accept / reject simulation rests on:
   `_get_real_insert_position` is inserting at the position; the attribute, rename and text handlers change the accepted
   payload exactly as the patcher does (`C09_accept_simulation_no_moves`).  The handlers' success is part of the
   conclusion (totality of the formatter on such scripts, C08).
-Not proved: moves in the simulation, the accepted view after `finalize` (wrappers as elements; text level only:
+* the reject invariant at tree level, moves included (`Proofs/Rej1.lean`, `Rej2.lean`): the rejected view of the working
+  tree (`rej`: nodes flagged inserted dropped, the old tag restored from `diff:rename`, marked texts read with the
+  delete wrappers opened and the insert wrappers dropped, attributes forgotten) never changes - a deleted node is only
+  marked, an inserted node and the copy a move inserts are flagged and therefore invisible, a rename records the old
+  tag, a text update records the old text (`C10_reject_invariant`); for a clean left document the rejected view is the
+  document without its attributes.
+Not proved: moves in the accept simulation, the attribute annotations in the rejected view, the accepted view after `finalize` (wrappers as elements; text level only:
 `C09_text_update_accept`), the composition at tree level (accept (format L S) = patch L S, reject (format L S) = L) - it
 is decided on every run by the projection oracles on the real output; and it is *false* of
 the code for the two recorded findings (text after a comment, tail of a deleted / moved node).
@@ -46,6 +52,7 @@ import XmlDiffModel.Proofs.TextMark2
 import XmlDiffModel.Proofs.FmtInv
 import XmlDiffModel.Proofs.Acc4
 import XmlDiffModel.Proofs.Changes
+import XmlDiffModel.Proofs.Rej2
 
 namespace XmlDiffModel
 open Tree
@@ -192,6 +199,40 @@ example :
         (fun s => (Tree.ids (Acc.acc (Acc.cln Acc.accS) s.tree), C17.pls (Acc.acc (Acc.cln Acc.accS) s.tree))) =
       (runUniq QName.plain ⟨exL, 20⟩ exScript).toOption.map (fun p => (Tree.ids p.tree, C17.pls p.tree)) ∧
     (runUniq QName.plain ⟨exL, 20⟩ exScript).toOption.isSome = true := by
+  decide +kernel
+
+open Acc Rej TextMark in
+/-- **Rejecting every change gives the left document back** - structure, tags and texts; formatter without text tags
+and without `use_replace`; tree before `finalize`; any script, moves included.  `L` is the left document as the
+formatter receives it.  Assumed along the run (`RejOK`): a node is renamed at most once and a text or tail is marked
+at most once, each consumed engine answer being a list of equal / insert / delete segments whose rejected text is the
+current rejected reading of that text (C16); attribute names are outside the `diff:` namespace.  Then whenever the
+handlers accept the script, the rejected view of the tree they leave is `L` without its attributes. -/
+theorem C10_reject_invariant (qn : QName) (ft : List Str) (L : Tree) (nx : Nat) (segs : List (List Seg))
+    (w : Bool) (script : List Action) (s' : FState)
+    (hclean : CleanT L) (hn : (Tree.ids L).Nodup) (hfresh : ∀ i ∈ Tree.ids L, i < nx)
+    (hpn : ∀ a ∈ script, PlainNames a)
+    (hside : RejOK qn { tree := L, next := nx, ph := phInit [] ft, segs := segs, useReplace := false, wsText := w } script)
+    (h : runFmt qn { tree := L, next := nx, ph := phInit [] ft, segs := segs, useReplace := false, wsText := w }
+      script = .ok s') :
+    rej s'.tree = bare L := by
+  have hb : Base (phInit [] ft) := by
+    have := base_history [] ft [] (by
+      show (phInit [] ft).counter < 0x110000
+      have : (phInit [] ft).counter = phStart + 6 := rfl
+      rw [this]; decide)
+    exact this
+  have inv : ROK { tree := L, next := nx, ph := phInit [] ft, segs := segs, useReplace := false, wsText := w } :=
+    ⟨hn, hfresh, isIns_of_clean L hclean, hb, rfl⟩
+  rw [run_rej qn script _ s' inv hpn hside h]
+  exact rej_clean L hclean
+
+/-- The conclusion of `C10_reject_invariant` on the concrete script above with a move added: the rejected view has
+the ids and payloads of the left document without its attributes. -/
+example :
+    (runFmt QName.plain exS0 (exScript ++ [.moveNode (exP [("a", 1), ("b", 1)]) (exP [("a", 1), ("x", 1)]) 0])).toOption.map
+        (fun s => (Tree.ids (Rej.rej s.tree), C17.pls (Rej.rej s.tree))) =
+      some (Tree.ids (Rej.bare exL), C17.pls (Rej.bare exL)) := by
   decide +kernel
 
 /-- Non-vacuity of `C08_output_placeholder_free`: the handlers accept a text update with a delete + insert answer. -/
